@@ -34,6 +34,31 @@ type contractCall struct {
 	Ps     []uint `json:"ps"`
 	D      uint   `json:"d"`
 	NonNil bool   `json:"nonnil"`
+	V1     bool   `json:"v1"`
+}
+
+// distinct divider calls seen by the wrapping dividers of the gated runs (v2 replay, v1 recorder), flushed by the tests
+var (
+	contractMu   sync.Mutex
+	contractSeen = map[string]contractCall{}
+)
+
+func noteContract(prios []uint, h uint, ps []uint, d uint, nonNil bool, isV1 bool) {
+	cc := contractCall{Prios: prios, H: h, Ps: append([]uint{}, ps...), D: d, NonNil: nonNil, V1: isV1}
+	k := fmt.Sprint(cc)
+	contractMu.Lock()
+	contractSeen[k] = cc
+	contractMu.Unlock()
+}
+
+func flushContract(t *testing.T, name string) {
+	out := openOut(t, name)
+	defer out.close()
+	contractMu.Lock()
+	for _, c := range contractSeen {
+		out.put(c)
+	}
+	contractMu.Unlock()
 }
 
 func randomConfig(rnd *rand.Rand) Config {
@@ -78,7 +103,7 @@ func freeRunV2(t *testing.T, cfg Config, rnd *rand.Rand, calls map[string]contra
 	}
 	base := dividerByName(cfg.Div)
 	div := func(ps []uint, d uint, dist map[uint]uint) {
-		cc := contractCall{Prios: cfg.Prios, H: cfg.H, Ps: append([]uint(nil), ps...), D: d, NonNil: dist != nil}
+		cc := contractCall{Prios: cfg.Prios, H: cfg.H, Ps: append([]uint{}, ps...), D: d, NonNil: dist != nil}
 		k := fmt.Sprint(cc)
 		cmu.Lock()
 		calls[k] = cc
